@@ -35,6 +35,12 @@ add_leg('C15', 'C15b', 4000, 60, 200000, 900)
 add_leg('C17', 'C17w', 3000, 60, 200000, 900)
 add_leg('C13', 'C13e', 3000, 60, 200000, 900)
 add_leg('C06', 'C06f', 3000, 40, 200000, 900)
+# neighbourhood legs (thorough tier only): every seed is followed by re-runs in which one to three decisions of the
+# environment (a packet fate, a scheduling choice) are changed while configuration and workload stay the same
+for _pid, _scn in [('C02', 'C02'), ('C06', 'C06f'), ('C07', 'C07'), ('C10', 'C10')]:
+    PROPS[_pid]['legs']['thorough'].append(dict(scenario=_scn, runs=40000, budget=900, tag='neigh', mutants=3, seed_offset=700000))
+# the write-contract flavour (failing, blocking and deadline writes, empty writes, short reads) under the buffered-amount oracle
+add_leg('C15', 'C18', 4000, 40, 200000, 900)
 PROPS['C03']['legs']['quick'].append(dict(scenario='C03', runs=1600, budget=60, tag='sweep', params={'c03_sweep': 1}))
 PROPS['C03']['legs']['thorough'].append(dict(scenario='C03', runs=64000, budget=900, tag='sweep', params={'c03_sweep': 1}))
 def _c04_size(n, k):
